@@ -112,6 +112,13 @@ func pinnedCases() []pinned {
 		req.Fields = []*schema.Field{{Name: "ids", Number: 1, Kind: schema.KInt32, Card: schema.Repeated, Ann: &schema.Ann{Query: &schema.Query{Name: "id"}}}}
 		goCase("C13", "C13/query_repeated_client.json", "client", "", s)
 	}
+	{
+		s, req, _, _, _ := baseSchema("p0014")
+		req.Oneofs = []*schema.Oneof{{Name: "content", Discriminator: "type"}}
+		req.Fields = append(req.Fields, &schema.Field{Name: "text", Number: 2, Kind: schema.KString, Card: schema.Singular, Oneof: "content"},
+			&schema.Field{Name: "at", Number: 3, Kind: schema.KTimestamp, Card: schema.Singular, Oneof: "content"})
+		goCase("C13", "C13/oneof_disc_timestamp_variant.json", "both", "", s)
+	}
 	// ---- C20 open ----
 	{
 		s, _, resp, _, _ := baseSchema("p0013")
